@@ -12,6 +12,8 @@ logs a step afterwards; nothing is alive when the program ends.
 
 from __future__ import annotations
 
+from ..collect import guarded
+
 import itertools
 
 from .. import treecheck, treefam
@@ -46,11 +48,11 @@ def shards(tier: str, seed: int) -> list[dict]:
 def run_shard(desc: dict, col) -> None:  # noqa: ANN001
     for i, case in enumerate(all_cases(desc["tier"], desc["seed"])):
         if i % desc["of"] == desc["shard"]:
-            treecheck.judge(PROPERTY, case, col)
+            guarded(col, case, treecheck.judge, PROPERTY, case, col)
 
 
 def replay(case: dict, col) -> None:  # noqa: ANN001
-    treecheck.judge(PROPERTY, case, col)
+    guarded(col, case, treecheck.judge, PROPERTY, case, col)
 
 
 def finish(col, tier: str) -> None:  # noqa: ANN001
